@@ -12,7 +12,7 @@ CHECKS = {
         category="model_checking",
         engine="E2 + H1",
         technique="stateless schedule exploration (hand-rolled, CHESS style): all await-point interleavings of k client tasks against the real Clock actor, re-execution from choice prefixes, deviation-bounded for k=3",
-        text="k=2 client tasks with 2-4 calls each (get_time / register_ts of stamps in the same tick, 1 s ahead, near the drift limit, beyond it, with the clock's own node id, with counters in the actor's back-pressure region), plus a saturated clock (one task with 1000 requests in flight, the capacity of the actor's queue, racing with register_ts + get_time) are explored over ALL interleavings of their await points; k=3 up to 2 (quick) / 3 (thorough) deviations, in fine-grained mode (one poll of one task - a caller or the clock actor - per step, runtime event_interval 1); three injected wall-clock behaviours (stalled, ticking, jumping backwards). Every execution is checked: stamps pairwise distinct, strictly increasing per task, every get_time invoked after a register_ts returned exceeds the registered stamp unless it was beyond the drift limit. Every 97th execution is run twice and must reproduce.",
+        text="k=2 client tasks with 2-4 calls each (get_time / register_ts of stamps in the same tick, 1 s ahead, near the drift limit, beyond it, with the clock's own node id, with counters in the actor's back-pressure region), plus a saturated clock (one task with 1000 requests in flight, the capacity of the actor's queue, racing with register_ts + get_time) are explored over ALL interleavings of their await points; k=3 up to 2 (quick) / 6 (thorough) deviations, in fine-grained mode (one poll of one task - a caller or the clock actor - per step, runtime event_interval 1); three injected wall-clock behaviours (stalled, ticking, jumping backwards). Every execution is checked: stamps pairwise distinct, strictly increasing per task, every get_time invoked after a register_ts returned exceeds the registered stamp unless it was beyond the drift limit. Every 97th execution is run twice and must reproduce.",
         note="Current-thread runtime, await-point granularity. Multi-threaded runtimes are argued equivalent to some FIFO enqueue order into the actor's channel (DESIGN.md), not explored.",
         design="DESIGN.md section 3, C11",
     ),
@@ -28,7 +28,7 @@ CHECKS = {
         category="exploration",
         engine="E4 + H3",
         technique="bounded exhaustive input enumeration: all single-bit flips / truncations / extensions of every family frame against the real DataView::using with an independent bitwise CRC-32 reference, plus round trips through the real client/handler over the in-process transport",
-        text="Every value of a message family (fixed, text/bytes/option, nested, four tiny types with alignment 1-2 and sizes not divisible by 4; payload sizes from a boundary grid up to 64 KiB, 1 MiB in thorough) is sent through the real RpcClient -> handle_connection -> handler and back and compared on both sides; every ErrorCode x message text comes back unchanged; for every frame up to 300 (quick) / 1100 (thorough) bytes ALL single-bit flips, ALL truncations, 12 extensions and every CRC-valid body shorter than the archived root are judged by DataView::using exactly as the reference predicate demands, and the same hostile frames handed to a typed handler are refused as InvalidPayload without the handler running or anything panicking.",
+        text="Every value of a message family (fixed, text/bytes/option, nested, four tiny types with alignment 1-2 and sizes not divisible by 4; payload sizes from a boundary grid up to 64 KiB, 1 MiB in thorough) is sent through the real RpcClient -> handle_connection -> handler and back and compared on both sides; every ErrorCode x message text comes back unchanged; for every frame up to 400 (quick) / 9000 (thorough) bytes ALL single-bit flips, ALL truncations, 12 extensions and every CRC-valid body shorter than the archived root are judged by DataView::using exactly as the reference predicate demands, and the same hostile frames handed to a typed handler are refused as InvalidPayload without the handler running or anything panicking.",
         note="In-process transport: hyper/h2 chunking bypassed (single-chunk bodies). Debug assertions on, so an out-of-range root position is a panic, not UB.",
         design="DESIGN.md section 3, C12",
     ),
@@ -52,7 +52,7 @@ CHECKS = {
         category="model_checking",
         engine="E1 + H4",
         technique="explicit-state BFS to closure over selector cursor states per layout (all levels x all scripted RNG outcomes) on the real DCAwareSelector, plus exhaustive layout-pair sequences on the real selector actor",
-        text="For every layout up to 3x3 (quick) / 4x4 (thorough) data centres x nodes and every local node position the cursor-state graph is explored to closure (no length bound): every level, every outcome of every random draw; each result is judged: only live members, never the local node, no duplicates, enough (exactly n for One/Two/Three), per-DC majorities for the quorum levels, NotEnoughNodes only when really too few. Actor level: all ordered pairs of sub-layouts with selections before and after set_nodes: nothing outside the new layout is ever returned (cache included).",
+        text="For every layout up to 3x3 (quick) / 4x5 (thorough) data centres x nodes and every local node position the cursor-state graph is explored to closure (no length bound): every level, every outcome of every random draw; each result is judged: only live members, never the local node, no duplicates, enough (exactly n for One/Two/Three), per-DC majorities for the quorum levels, NotEnoughNodes only when really too few. Actor level: all ordered pairs of sub-layouts with selections before and after set_nodes: nothing outside the new layout is ever returned (cache included).",
         note="Random draws scripted through the cfg(datacake_verif) RNG shadow; raw values chosen so that every outcome for ranges <= 4 occurs. Layouts always contain the local node.",
         design="DESIGN.md section 3, C15",
     ),
@@ -92,7 +92,7 @@ CHECKS = {
         category="model_checking",
         engine="E2, Layer B single node",
         technique="stateless schedule exploration of all await-point interleavings of k concurrent first users of a fresh keyspace on a real node (four real entry paths), re-execution from choice prefixes",
-        text="k=2 tasks (all 13 combinations of entry paths: group lookup + Set, public put, incoming ConsistencyService RPC, incoming GetState RPC, the node's own repair cycle against a peer holding the keyspace) over ALL interleavings, k=3 up to 2 (quick) / 4 (thorough) deviations, fine-grained mode (one task poll per step). After each execution the set returned by a new lookup must contain every acknowledged id and storage must hold exactly the acknowledged writes.",
+        text="k=2 tasks (all 13 combinations of entry paths: group lookup + Set, public put, incoming ConsistencyService RPC, incoming GetState RPC, the node's own repair cycle against a peer holding the keyspace) over ALL interleavings, k=3 up to 2 (quick) / 6 (thorough) deviations, fine-grained mode (one task poll per step). After each execution the set returned by a new lookup must contain every acknowledged id and storage must hold exactly the acknowledged writes.",
         note="Await-point granularity on a current-thread runtime; the property's window lies across awaits.",
         design="DESIGN.md section 3, C18",
     ),
@@ -100,7 +100,7 @@ CHECKS = {
         category="exploration",
         engine="E4 + E1 by replay, Layer B",
         technique="bounded exhaustive enumeration of sender states (generator states, size grid covering every frame-length residue, origin/source families, 1k-20k entries) transferred through the real ReplicationService/ReplicationClient, plus BFS by replay over sender histories with a peer fetching after every request",
-        text="Static: ~1 700 (quick) / ~4 000 (thorough) distinct sender states are installed with add_state and fetched with the real get_state RPC; the received set must equal the sender's full snapshot (live, tombstones, per-source stamps, cut-offs) and decide a probe grid of will_apply/insert/delete identically. Dynamic: histories of sets, deletes and purges to depth 4/5 on a real node; after every request the state a peer obtains must equal the sender's Serialize reply at that moment. Undecodable states: a fake peer registered under the real service name and message path answers GetState with 244 (quick) / ~1 000 (thorough) blobs (empty, short, text, truncations and byte inversions of a genuine state on a grid, every single-bit flip of its last 24/96 bytes), each probed in its own child process; whenever rkyv's validating decoder refuses the bytes the client must return an error (not a state, not a panic or abort), and whenever it accepts them the client must return the same state; a control transfer of the genuine state guards the impersonation.",
+        text="Static: ~1 700 (quick) / ~4 000 (thorough) distinct sender states are installed with add_state and fetched with the real get_state RPC; the received set must equal the sender's full snapshot (live, tombstones, per-source stamps, cut-offs) and decide a probe grid of will_apply/insert/delete identically. Dynamic: histories of sets, deletes and purges to depth 4/6 on a real node; after every request the state a peer obtains must equal the sender's Serialize reply at that moment. Undecodable states: a fake peer registered under the real service name and message path answers GetState with 244 (quick) / ~2 500 (thorough) blobs (empty, short, text, truncations and byte inversions of a genuine state on a grid - every position in thorough -, every single-bit flip of its last 24/200 bytes), each probed in its own child process; whenever rkyv's validating decoder refuses the bytes the client must return an error (not a state, not a panic or abort), and whenever it accepts them the client must return the same state; a control transfer of the genuine state guards the impersonation.",
         note="In-process transport (single-chunk reply). Debug assertions on: misaligned/out-of-bounds decoding panics instead of being UB.",
         design="DESIGN.md section 3, C19",
     ),
@@ -140,7 +140,7 @@ CHECKS = {
         category="model_checking",
         engine="E1 clock states",
         technique="explicit-state BFS over (clock value, newest stamp issued/accepted) driving the real HLCTimestamp::send/recv with injected wall-clock readings",
-        text="BFS to depth 5 (quick) / 9 (thorough) over clock states; every transition picks one of 10 raw wall readings (stall, +1/3/4 ms, +1 s, -4 ms, -1 s, -2 h, drift boundary) and send or recv of a 64-message grid (same/older/newer time, counters 0/1/65534/65535, own/other node id, drift-4ms/drift/drift+4ms). Postconditions of the statement are evaluated on every transition, errors must leave the clock bit-identical and must be justified.",
+        text="BFS to depth 6 (quick) / 14 (thorough) over clock states; every transition picks one of 10 raw wall readings (stall, +1/3/4 ms, +1 s, -4 ms, -1 s, -2 h, drift boundary) and send or recv of a 64-message grid (same/older/newer time, counters 0/1/65534/65535, own/other node id, drift-4ms/drift/drift+4ms). Postconditions of the statement are evaluated on every transition, errors must leave the clock bit-identical and must be justified.",
         note="State merging by (clock, newest stamp) is sound because the oracle reads nothing else of the past. Wall clock injected through the cfg(datacake_verif) seam; quantisation to 4 ms stays real.",
         design="DESIGN.md section 3, C09",
     ),
